@@ -29,8 +29,8 @@ Ev(ev, t, op, res, cd) == [ev |-> ev, t |-> t, op |-> op, res |-> res, n |-> 0,
                            owner |-> cd.lk.owner, w |-> Len(cd.waiters)]
 
 Boot == [K EXCEPT !.ready = [i \in 1..NT |-> HStep(i)]]
-H(t, c) == [w |-> "t", t |-> t, c |-> c, at |-> K.nh]
-HE(t, c) == [w |-> "e", t |-> t, c |-> c, at |-> K.nh]
+H(t, c) == [w |-> "t", t |-> t, c |-> c, at |-> K.nh, cyc |-> K.cycle]
+HE(t, c) == [w |-> "e", t |-> t, c |-> c, at |-> K.nh, cyc |-> K.cycle]
 ResOf(r) == IF ~IsExc(r) THEN "ok" ELSE IF IsCancel(r) THEN "cancelled" ELSE "error"
 
 ClientInit(t) ==
